@@ -33,6 +33,9 @@ type StdinSpec struct {
 	Tty    bool
 	Data   []byte
 	Chunks []int // sizes of successive reads, cycled; empty = as much as asked
+	// FailAt, if > 0, makes the pipe fail with EIO once that many bytes have
+	// been delivered (a producer that died, a failing medium behind it).
+	FailAt int
 	// File, if set, makes stdin a read-only descriptor on that regular file
 	// (gts < file), positioned at Offset (the caller may have read a part).
 	File   string
@@ -120,7 +123,7 @@ func (w *World) StartProc(spec ProcSpec) *Proc {
 	} else if spec.Stdin.Tty {
 		p.Stdin = &File{w: w, name: "/dev/stdin", kind: kTty, fd: 0}
 	} else {
-		p.Stdin = &File{w: w, name: "/dev/stdin", kind: kPipeIn, fd: 0, pdata: spec.Stdin.Data, chunks: spec.Stdin.Chunks}
+		p.Stdin = &File{w: w, name: "/dev/stdin", kind: kPipeIn, fd: 0, pdata: spec.Stdin.Data, chunks: spec.Stdin.Chunks, failAt: spec.Stdin.FailAt}
 	}
 	p.Stdout = &File{w: w, name: "/dev/stdout", kind: kSink, fd: 1, limit: spec.SinkLimit, sinkErr: spec.SinkErr}
 	p.Stderr = &File{w: w, name: "/dev/stderr", kind: kSink, fd: 2, limit: -1}
